@@ -155,4 +155,11 @@ def run (w : Widths) (chunk : Nat) (shards : List (List Rec)) : List Nat :=
   if shards.flatten.isEmpty then List.replicate w.buckets 0 else
   pipeline w chunk id shards id
 
+/-- Outcome of a query as the code behaves today (`none` = the query never completes).
+Known finding F8: with more than one shard, a shard that enters `hybrid_protocol` with no rows while
+another shard has rows returns early and leaves the collective shuffle, so the others wait forever. -/
+def runOutcome (w : Widths) (chunk : Nat) (shards : List (List Rec)) : Option (List Nat) :=
+  if shards.length > 1 && shards.any (·.isEmpty) && !shards.flatten.isEmpty then none
+  else some (run w chunk shards)
+
 end IpaVerif.Hybrid
